@@ -97,6 +97,9 @@ impl Game {
         for character in pieces.chars() {
             match character {
                 '/' => {
+                    if col != 8 {
+                        bail!("Invalid board size");
+                    }
                     if row == 0 {
                         bail!("Too many rows");
                     }
@@ -125,6 +128,9 @@ impl Game {
                 }
                 empty_count if character.is_ascii_digit() => {
                     let count = (empty_count as u8 - b'0') as i8;
+                    if count == 0 || col + count > 8 {
+                        bail!("Invalid empty squares count");
+                    }
                     for i in 0..count {
                         let position = Position::new_assert(row, col + i);
                         past_hashes[position.as_usize()] = zobrist::EMPTY_PLACE;
@@ -145,9 +151,9 @@ impl Game {
             bail!("Missing player");
         };
 
-        let current_player = match next_player.chars().next().unwrap() {
-            'w' => Player::White,
-            'b' => Player::Black,
+        let current_player = match next_player {
+            "w" => Player::White,
+            "b" => Player::Black,
             _ => bail!("Invalid player"),
         };
 
@@ -163,11 +169,11 @@ impl Game {
 
         for right in castling_rights.chars() {
             match right {
-                'K' => state.set_white_king_castling_true(),
-                'Q' => state.set_white_queen_castling_true(),
-                'k' => state.set_black_king_castling_true(),
-                'q' => state.set_black_queen_castling_true(),
-                '-' => continue,
+                'K' if !state.white_king_castling() => state.set_white_king_castling_true(),
+                'Q' if !state.white_queen_castling() => state.set_white_queen_castling_true(),
+                'k' if !state.black_king_castling() => state.set_black_king_castling_true(),
+                'q' if !state.black_queen_castling() => state.set_black_queen_castling_true(),
+                '-' if castling_rights == "-" => continue,
                 _ => bail!("Invalid castling right"),
             }
         }
@@ -177,11 +183,30 @@ impl Game {
         };
 
         if en_passant != "-" {
-            let col = en_passant.chars().nth(0).unwrap();
-            state.set_en_passant(((col as u8) - b'a') as i8);
-            if !(0..8).contains(&state.en_passant()) {
-                bail!("Invalid en passant square");
+            // The square lies behind a pawn of the player who just moved
+            let expected_row = match current_player {
+                Player::White => b'6',
+                Player::Black => b'3',
+            };
+            match en_passant.as_bytes() {
+                [col @ b'a'..=b'h', row] if *row == expected_row => {
+                    state.set_en_passant((col - b'a') as i8)
+                }
+                _ => bail!("Invalid en passant square"),
             }
+        }
+
+        // Optional halfmove clock and fullmove number
+        for _ in 0..2 {
+            if let Some(counter) = terms.next() {
+                if !counter.bytes().all(|digit| digit.is_ascii_digit()) {
+                    bail!("Invalid move counter");
+                }
+            }
+        }
+
+        if terms.next().is_some() {
+            bail!("Too many fields");
         }
 
         let Some(white_king_pos) = white_king_pos else {
